@@ -719,14 +719,16 @@ class IntermediateCodeGen(AbstractCodeGen):
                     if defval:
                         outDict.update(
                             value=defval[0],
-                            format='enum'
+                            format='enum',
+                            number=dict(defvalType[1])[defval[0]]
                         )
 
                 # good MIB: DEFVAL { ... }
                 elif defval in dict(defvalType[1]):
                     outDict.update(
                         value=defval,
-                        format='enum'
+                        format='enum',
+                        number=dict(defvalType[1])[defval]
                     )
 
             elif defvalType[0][0] == 'Bits':
